@@ -255,6 +255,22 @@ func c13Bounds(p *core.Program, r *core.Report, t *types.Named) {
 			}
 			var probs []string
 			decs, copies := 0, 0
+			decPos := token.NoPos // where the size is decremented: afterwards `size` means one less
+			ast.Inspect(fi.Decl.Body, func(n ast.Node) bool {
+				switch v := n.(type) {
+				case *ast.IncDecStmt:
+					if norm(v.X) == "size" && v.Tok == token.DEC && !decPos.IsValid() {
+						decPos = v.Pos()
+					}
+				case *ast.AssignStmt:
+					for k, l := range v.Lhs {
+						if norm(l) == "size" && k < len(v.Rhs) && !decPos.IsValid() {
+							decPos = v.Pos()
+						}
+					}
+				}
+				return true
+			})
 			ast.Inspect(fi.Decl.Body, func(n ast.Node) bool {
 				switch v := n.(type) {
 				case *ast.IncDecStmt:
@@ -304,8 +320,13 @@ func c13Bounds(p *core.Program, r *core.Report, t *types.Named) {
 							probs = append(probs, "cannot read the bounds of "+norm(se))
 							continue
 						}
-						if lformKey(hi.plus(lo, -1)) != want {
-							probs = append(probs, fmt.Sprintf("%s holds %s elements, the tail after i has size-i-1: the last element(s) are not moved down", norm(se), lformKey(hi.plus(lo, -1))))
+						ln := hi.plus(lo, -1)
+						if decPos.IsValid() && v.Pos() > decPos {
+							// the size was already decremented: `size` here is the old size minus one
+							ln = ln.plus(lform{"": ln["size"]}, -1)
+						}
+						if lformKey(ln) != want {
+							probs = append(probs, fmt.Sprintf("%s holds %s elements, the tail after i has size-i-1 (size as on entry): the last element(s) are not moved down", norm(se), lformKey(ln)))
 						}
 					}
 				}
@@ -1209,6 +1230,39 @@ func c13Sort(p *core.Program, r *core.Report, t *types.Named) {
 		}
 		if !(build && outk) && c13ColumnsPerm(p, fi, bodies) {
 			build, outk = true, true
+		}
+		// no way round the sort: every path that returns has gone through the sort call (an
+		// "already ordered" shortcut has to know the direction, the ties and the child column too)
+		{
+			sin := newInliner(p, fi, nil)
+			sps, over := paths.Enumerate(fi.Decl.Body, paths.Config{Info: info, Inline: sin.Body,
+				Classify: func(n ast.Node) []paths.Event {
+					var out []paths.Event
+					ast.Inspect(n, func(m ast.Node) bool {
+						if _, isLit := m.(*ast.FuncLit); isLit {
+							return false
+						}
+						if call, ok := m.(*ast.CallExpr); ok {
+							if isCallTo(info, call, "sort", "Sort") || isCallTo(info, call, "sort", "Stable") || isCallTo(info, call, "sort", "Slice") || isCallTo(info, call, "sort", "SliceStable") {
+								out = append(out, paths.Event{Kind: "SORTCALL", Pos: call.Pos()})
+							}
+						}
+						return true
+					})
+					return out
+				}})
+			if !over {
+				for _, pa := range sps {
+					if len(pa) == 0 || pa[len(pa)-1].Kind != "RET" {
+						continue
+					}
+					if !pa.Has("SORTCALL") {
+						build = false
+						r.Viol("C13.sort", c+" shortcut", p.Pos(pa[len(pa)-1].Pos), "a path returns an order without having sorted: a shortcut (already-ordered input, cached result) decides the order without the comparator — direction, ties and the child column are not looked at")
+						break
+					}
+				}
+			}
 		}
 		r.Check(build && outk, "C13.perm", c, pos, "table[i] = {i, get(i)} for every i; out[i] = table[i].key", "the result is not built from one (index, value) pair per index read back by position")
 	}
